@@ -228,6 +228,10 @@ func (z *zmodemTransfer) handleZmodemStream(cmd *exec.Cmd) {
 		z.logger.writeTraceLog([]byte("zmodem begin"), "debug")
 	}
 	z.cmd.Store(cmd)
+	if z.stopped.Load() { // stopped while the client was starting: nobody told it yet
+		_ = writeAll(z.stdin, zmodemCancelFullSequence)
+		z.ensureClientExit(cmd)
+	}
 	z.resetClientTimer()
 	z.resetServerTimer()
 
